@@ -253,9 +253,16 @@ MetricShapes == {<<n>> : n \in 2..4} \cup {<<a, b>> : a, b \in 2..4} \cup {<<a, 
 MaxVal == 3
 AxNone == 99            \* axis=None (integers only: TLC refuses to compare an integer with a string)
 NormAxis(shape, ax) == IF ax = AxNone THEN AxNone ELSE IF ax < 0 THEN ax + Len(shape) ELSE ax
+\* OFFSET regime: both arrays are handed over as 2^off + (the small integers), exactly representable.  The value of
+\* the shift-invariant metrics is that of the small integers (theorem in MetricDataOK); dt = "f32": float32 arrays.
+ShiftInvariant(op) == op \in {"MSE", "RMSE", "covariance", "variance", "std", "correlation"}
+Offsets == {<<20, "f64">>, <<30, "f64">>, <<40, "f64">>, <<10, "f32">>}
+OffShapes == {<<4>>, <<3, 4>>, <<2, 3, 2>>}
 ValidMetric(c) ==
     /\ c.op \in MetricOps /\ c.shape \in MetricShapes /\ c.k \in 1..MetricDraws
     /\ (c.axis = AxNone \/ (c.op # "R2" /\ c.axis \in (-1)..(Len(c.shape) - 1)))
+    /\ \/ c.off = 0 /\ c.dt = "f64"
+       \/ ShiftInvariant(c.op) /\ <<c.off, c.dt>> \in Offsets /\ c.shape \in OffShapes
 DropAt(s, k) == SubSeq(s, 1, k - 1) \o SubSeq(s, k + 1, Len(s))
 InsAt(s, k, x) == SubSeq(s, 1, k - 1) \o <<x>> \o SubSeq(s, k, Len(s))
 MetricOutShape(shape, ax) == IF ax = AxNone THEN <<>> ELSE DropAt(shape, ax + 1)
@@ -286,6 +293,8 @@ MetricDataOK(x, y) ==
     /\ c[1] >= 0 /\ c[1] <= c[2] /\ r[1] >= 0 /\ r[1] <= r[2]
     /\ MetricRat("variance", x, y)[1] >= 0 /\ MetricRat("MSE", x, y)[1] >= 0
     /\ CovNum([k \in 1..Len(x) |-> x[k] + 2], y) = CovNum(x, y)
+    /\ MetricRat("MSE", [k \in 1..Len(x) |-> x[k] + 7], [k \in 1..Len(y) |-> y[k] + 7]) = MetricRat("MSE", x, y)
+    /\ MetricRat("correlation", [k \in 1..Len(x) |-> x[k] + 7], [k \in 1..Len(y) |-> y[k] + 7]) = MetricRat("correlation", x, y)
     /\ (MetricRat("MSE", x, y)[1] = 0) = (x = y)
     /\ MetricRat("R2", x, x)[1] = MetricRat("R2", x, x)[2]
 
@@ -340,9 +349,10 @@ CfgsOf(sd) ==
             {[kind |-> "generic", R |-> sd.R, M |-> m, prof |-> pr, rows |-> SubSeq(RowProfiles[pr], 1, m), flavour |-> fl, k |-> k] :
                 m \in 1..3, pr \in 1..Len(RowProfiles), fl \in GenFlavours, k \in 1..GenDraws}
       [] sd.fam = "metric" ->
-            {c \in UNION {{[kind |-> "metric", op |-> sd.op, shape |-> sh, axis |-> ax, k |-> k] :
-                              ax \in {AxNone} \cup ((-1)..(Len(sh) - 1)), k \in 1..MetricDraws} : sh \in MetricShapes}
-                : ValidMetric(c)}
+            {c \in UNION {{[kind |-> "metric", op |-> sd.op, shape |-> sh, axis |-> ax, off |-> o[1], dt |-> o[2], k |-> k] :
+                              ax \in {AxNone} \cup ((-1)..(Len(sh) - 1)), k \in 1..MetricDraws,
+                              o \in {<<0, "f64">>} \cup Offsets} : sh \in MetricShapes}
+                : ValidMetric(c) /\ (c.off # 0 => c.k = 1)}
       [] sd.fam = "lev" ->
             {[kind |-> "lev", rows |-> r, cols |-> cl, flavour |-> fl, k |-> k] :
                 r \in {2, 3, 5, 9}, cl \in 1..4, fl \in LevFlavours, k \in 1..LevDraws}
